@@ -123,6 +123,14 @@ def decay_cases(ctx, rnd, n):
         try:
             d = get_decay(a, [b, c], p_break=brk, **kw)
             out = [(int(l), twoj(s)) for l, s in d.get_ls_list()]
+            # the answer must be stable over repeated queries (the list is cached on the decay object and feeds
+            # init_params / get_cg_matrix later): compare the third query too
+            d.get_ls_list()
+            out3 = [(int(l), twoj(s)) for l, s in d.get_ls_list()]
+            if out3 != out:
+                ctx.fail("get_ls_list", "dec%d_repeat" % k, "HelicityDecay.get_ls_list changes between queries", inp={"t": t, "P": P, "brk": brk, "kw": str(kw)},
+                         site="HelicityDecay.get_ls_list", fingerprint="unstable",
+                         failing_input={"decay": "J^P %s^%d -> %s^%d %s^%d p_break=%s options=%s" % (J(t[0]), P[0], J(t[1]), P[1], J(t[2]), P[2], brk, kw), "first_query": out, "third_query": out3})
         except Exception as e:  # decay with no allowed ls raises in init
             out = None
             ctx.count("decay_init_raises")
